@@ -58,6 +58,9 @@ func (blockchain *Blockchain) checkStop() bool {
 }
 
 func (blockchain *Blockchain) stop() {
+	if verifStop(blockchain) {
+		return
+	}
 	blockchain.stopped = true
 	if blockchain.tmNode == nil {
 		blockchain.Close()
@@ -207,6 +210,9 @@ func (blockchain *Blockchain) SetTmNode(node *tmNode.Node) {
 
 // MinGasPrice returns minimal acceptable gas price
 func (blockchain *Blockchain) MinGasPrice() uint32 {
+	if p, ok := verifMinGasPrice(blockchain); ok {
+		return p
+	}
 	mempoolSize := blockchain.tmNode.Mempool().Size()
 
 	if mempoolSize > 5000 {
